@@ -53,6 +53,11 @@ PLACEHOLDER = re.compile(r'##[A-Z_]+##')
 @st.composite
 def _cases(draw, tier):
     cfg = draw(isagen.full_isa(max_mnemonics=5, max_variants=1))
+    # names whose first or last character is an underscore (a word character that is not alphanumeric)
+    for extra in draw(st.lists(st.sampled_from(['or_', '_nx', 'r_', 'x_y']), max_size=2, unique=True)):
+        cfg['instructions'][extra] = {'bytecode': {'value': 1, 'size': 8}}
+    if draw(st.integers(0, 3)) == 0:
+        cfg['general']['registers'] = list(cfg['general'].get('registers') or []) + ['_t', 'q_']
     if draw(st.booleans()):
         first = sorted(cfg['instructions'])[0]
         macros = {}
@@ -64,7 +69,7 @@ def _cases(draw, tier):
     if draw(st.booleans()):
         cfg.setdefault('predefined', {})['constants'] = [{'name': n, 'value': 1} for n in
                                                          draw(st.lists(st.sampled_from(isagen.CONSTS), min_size=1, max_size=3, unique=True))]
-    return {'isa': cfg, 'salt': draw(st.integers(0, 1000))}
+    return {'isa': cfg, 'salt': draw(st.integers(0, 1000)), 'regenerate': draw(st.integers(0, 2)) == 0}
 
 
 def _first_variant(cfg, mn):
@@ -137,7 +142,8 @@ def check_class(findings, detail, editor, klass, pattern, words, prefix='', ctx_
                 continue
             text = ctx_before + prefix + nm + ctx_after
             s = len(ctx_before) + len(prefix)
-            if whole_token(rx, text, s, s + len(nm)):
+            partial = re.fullmatch(r'\w+', nm) is not None and touches(rx, text, s, s + len(nm))
+            if whole_token(rx, text, s, s + len(nm)) or partial:
                 d = dict(detail, editor=editor, klass=klass, pattern=pattern, word=w, near_miss=nm)
                 kind = 'regex-metacharacter-in-name' if re.escape(w) != w else 'plain'
                 findings.append(Finding(f'C20/{editor}/{klass}-classifies-identifier-outside-vocabulary/{kind}', d))
@@ -155,8 +161,25 @@ def execute(case, ctx):
     findings = []
     evals = 0
     # ---------------- VS Code
-    r = runner.run_forked(['generate-extension', 'vscode', '-c', fname, '-d', 'vs'], {fname: text}, crosscheck=False)
+    vs_files = {fname: text}
+    if case.get('regenerate'):
+        # an extension generated earlier from another vocabulary (same name and version) already sits in the directory
+        old_cfg = copy.deepcopy(cfg)
+        old_cfg['instructions'] = {'oldop': {'bytecode': {'value': 1, 'size': 8}}}
+        old_cfg['general']['registers'] = ['oldreg']
+        old_cfg.pop('macros', None)
+        _, old_text = isagen.dump_isa(old_cfg, 'yaml')
+        r0 = runner.run_forked(['generate-extension', 'vscode', '-c', fname, '-d', 'vs'], {fname: old_text}, crosscheck=False)
+        evals += 1
+        if r0.klass == 'accepted':
+            vs_files.update(r0.outputs)
+    r = runner.run_forked(['generate-extension', 'vscode', '-c', fname, '-d', 'vs'], vs_files, crosscheck=False)
     evals += 1
+    if case.get('regenerate') and r.klass == 'accepted':
+        # files that were not rewritten are still part of the generated package
+        for k, v in vs_files.items():
+            if k != fname and k not in r.outputs:
+                r.outputs[k] = v if isinstance(v, bytes) else v.encode()
     if r.klass != 'accepted':
         findings.append(Finding('C20/vscode/generation-failed', dict(detail, run=r.brief())))
     else:
@@ -259,5 +282,6 @@ def execute(case, ctx):
     nt = prefix_pair or meta or not macros or not registers
     classes = (['prefix-pair'] if prefix_pair else []) + (['metacharacter-in-name'] if meta else []) + \
               (['no-macros'] if not macros else ['macros']) + (['no-registers'] if not registers else ['registers']) + \
-              (['predefined-names'] if (cfg.get('predefined') or {}).get('constants') else [])
+              (['predefined-names'] if (cfg.get('predefined') or {}).get('constants') else []) + \
+              (['regenerated-over-older-extension'] if case.get('regenerate') else [])
     return Outcome(findings, nt, classes, evals, sample={'mnemonics': mnemonics, 'macros': macros, 'registers': registers})
